@@ -131,4 +131,74 @@ theorem src_work_count_low_dec (k r : Nat) (h : supportsLow k r = true) :
   generalize npow2 k = pk at *
   grind (splits := 3000)
 
+/-! the `reset_work` functions: validate (`?`), then ONE `work.reset(…)` whose arguments are returned here:
+    counts, shard size, layout bases and the work-space size the model's `encResetWork` / `decResetWork`
+    pass on -/
+
+/-- what the model hands to `DecWork.reset` for a rate -/
+def decResetArgs (rate : Rate) (k r sb : Nat) : Nat × Nat × Nat × Nat × Nat × Nat :=
+  match rate with
+  | .high => (k, r, sb, npow2 r, 0, highDecWorkCount k r)
+  | .low => (k, r, sb, 0, npow2 k, lowDecWorkCount k r)
+
+def encResetArgs (rate : Rate) (k r sb : Nat) : Nat × Nat × Nat × Nat :=
+  match rate with
+  | .high => (k, r, sb, highEncWorkCount k r)
+  | .low => (k, r, sb, lowEncWorkCount k r)
+
+def resetRes {α : Type} (v : Except Err Unit) (a : α) : Res α :=
+  match v with
+  | .ok () => Res.Ok a
+  | .error e => Res.Err (srcErrOf e)
+
+theorem validate_ok_supports_high {k r sb : Nat} (h : validate .high k r sb = .ok ()) : supportsHigh k r = true := by
+  simp only [validate, supports] at h
+  cases hs : supportsHigh k r <;> simp_all
+
+theorem validate_ok_supports_low {k r sb : Nat} (h : validate .low k r sb = .ok ()) : supportsLow k r = true := by
+  simp only [validate, supports] at h
+  cases hs : supportsLow k r <;> simp_all
+
+theorem src_reset_work_high_enc (k r sb : Nat) :
+    HighRateEncoder_reset_work k r sb = some (resetRes (validate .high k r sb) (encResetArgs .high k r sb)) := by
+  simp only [HighRateEncoder_reset_work, src_validate_high]
+  cases hv : validate .high k r sb with
+  | error e => simp [resOfUnit, resetRes]
+  | ok u =>
+    cases u
+    simp only [resOfUnit, resetRes, encResetArgs, src_work_count_high_enc k r (validate_ok_supports_high hv)]
+
+theorem src_reset_work_low_enc (k r sb : Nat) :
+    LowRateEncoder_reset_work k r sb = some (resetRes (validate .low k r sb) (encResetArgs .low k r sb)) := by
+  simp only [LowRateEncoder_reset_work, src_validate_low]
+  cases hv : validate .low k r sb with
+  | error e => simp [resOfUnit, resetRes]
+  | ok u =>
+    cases u
+    simp only [resOfUnit, resetRes, encResetArgs, src_work_count_low_enc k r (validate_ok_supports_low hv)]
+
+theorem src_reset_work_high_dec (k r sb : Nat) :
+    HighRateDecoder_reset_work k r sb = some (resetRes (validate .high k r sb) (decResetArgs .high k r sb)) := by
+  simp only [HighRateDecoder_reset_work, src_validate_high]
+  cases hv : validate .high k r sb with
+  | error e => simp [resOfUnit, resetRes]
+  | ok u =>
+    cases u
+    have hs := validate_ok_supports_high hv
+    have hr : r ≤ 9223372036854775808 := by
+      simp only [supportsHigh] at hs; grind
+    simp only [resOfUnit, resetRes, decResetArgs, src_work_count_high_dec k r hs, if_pos hr]
+
+theorem src_reset_work_low_dec (k r sb : Nat) :
+    LowRateDecoder_reset_work k r sb = some (resetRes (validate .low k r sb) (decResetArgs .low k r sb)) := by
+  simp only [LowRateDecoder_reset_work, src_validate_low]
+  cases hv : validate .low k r sb with
+  | error e => simp [resOfUnit, resetRes]
+  | ok u =>
+    cases u
+    have hs := validate_ok_supports_low hv
+    have hk : k ≤ 9223372036854775808 := by
+      simp only [supportsLow] at hs; grind
+    simp only [resOfUnit, resetRes, decResetArgs, src_work_count_low_dec k r hs, if_pos hk]
+
 end RS
